@@ -15,6 +15,7 @@ import (
 	"os"
 	"os/exec"
 	"path/filepath"
+	"regexp"
 	"sort"
 	"strconv"
 	"strings"
@@ -124,8 +125,12 @@ func build(conc, shim bool) string {
 		}
 	}
 	args := []string{"-repo", repo, "-out", dir}
+	stubbed := map[string]bool{}
+	shimFile := filepath.Join(dir, "zz_verif_export.go.txt")
+	var shimUnits []shimUnit
 	if shim {
-		args = append(args, "-export", filepath.Join(root, "export", "zz_verif_export.go.txt"))
+		shimUnits = renderShim(shimFile, stubbed)
+		args = append(args, "-export", shimFile)
 	}
 	if !conc {
 		args = append(args, "-conc=false")
@@ -160,14 +165,103 @@ func build(conc, shim bool) string {
 		bargs = append(bargs, "-tags", "verifshim")
 	}
 	bargs = append(bargs, "./cmd/worker")
-	if out, err := run(root, "go", bargs...); err != nil {
-		fmt.Fprint(os.Stderr, out)
-		os.RemoveAll(dir)
-		fmt.Fprintln(os.Stderr, "ENGINE-BUILD the (rewritten) tree does not compile")
-		os.Exit(3)
+	for {
+		out, err := run(root, "go", bargs...)
+		if err == nil {
+			break
+		}
+		// a wrapper of the export shim that no longer fits the tree (an unexported name or signature
+		// changed) is replaced by its stub; the check then skips what it cannot reach
+		progress := false
+		if shim {
+			for _, m := range regexp.MustCompile(`zz_verif_export\.go(?:\.txt)?:(\d+)`).FindAllStringSubmatch(out, -1) {
+				ln, _ := strconv.Atoi(m[1])
+				for _, u := range shimUnits {
+					if ln >= u.from && ln <= u.to && !stubbed[u.name] {
+						stubbed[u.name] = true
+						progress = true
+						if u.name == "openconv" {
+							stubbed["decodeOpen"], stubbed["encodeOpen"] = true, true
+						}
+					}
+				}
+			}
+		}
+		if !progress {
+			fmt.Fprint(os.Stderr, out)
+			os.RemoveAll(dir)
+			fmt.Fprintln(os.Stderr, "ENGINE-BUILD the (rewritten) tree does not compile")
+			os.Exit(3)
+		}
+		shimUnits = renderShim(shimFile, stubbed)
+	}
+	if len(stubbed) > 0 {
+		var names []string
+		for n := range stubbed {
+			names = append(names, n)
+		}
+		sort.Strings(names)
+		fmt.Fprintf(os.Stderr, "NOTE white-box wrappers not bindable to this tree, replaced by stubs: %s\n", strings.Join(names, ", "))
 	}
 	prune(filepath.Join(root, ".work"), 6)
 	return bin
+}
+
+type shimUnit struct {
+	name     string
+	from, to int // line range in the rendered file
+}
+
+// renderShim writes export/zz_verif_export.go.txt to path with the units named in stubbed rendered from
+// their stub lines, and returns the line range of every unit in the rendered file.
+func renderShim(path string, stubbed map[string]bool) []shimUnit {
+	b, err := os.ReadFile(filepath.Join(root, "export", "zz_verif_export.go.txt"))
+	if err != nil {
+		engineFail("export shim: %v", err)
+	}
+	var out []string
+	var units []shimUnit
+	cur, inStub := "", false
+	for _, l := range strings.Split(string(b), "\n") {
+		f := strings.Fields(l)
+		switch {
+		case len(f) == 2 && f[0] == "//unit":
+			cur, inStub = f[1], false
+			units = append(units, shimUnit{name: cur, from: len(out) + 1})
+			out = append(out, "// unit "+cur)
+		case len(f) == 2 && f[0] == "//stub":
+			inStub = true
+			out = append(out, "")
+		case len(f) == 2 && f[0] == "//end":
+			units[len(units)-1].to = len(out) + 1
+			cur, inStub = "", false
+			out = append(out, "")
+		case cur == "":
+			out = append(out, l)
+		case inStub:
+			if stubbed[cur] && strings.HasPrefix(l, "//| ") {
+				out = append(out, l[4:])
+			} else {
+				out = append(out, "")
+			}
+		default:
+			if stubbed[cur] {
+				out = append(out, "")
+			} else {
+				out = append(out, l)
+			}
+		}
+	}
+	var names []string
+	for n := range stubbed {
+		names = append(names, n)
+	}
+	sort.Strings(names)
+	out = append(out, fmt.Sprintf("// VerifStubbed names the wrappers rendered as stubs.\nvar VerifStubbed = %#v", names))
+	if err := os.WriteFile(path, []byte(strings.Join(out, "\n")+"\n"), 0o644); err != nil {
+		engineFail("export shim: %v", err)
+	}
+	return units
 }
 
 func prune(dir string, keep int) {
